@@ -133,11 +133,11 @@ def lattice(rng, dim, system=None):
     return sysm, A, fmat_mul(fmat_T(Aq), Aq), Aq
 
 
-def holohedry(g):
-    """all integer matrices with entries in {-1,0,1} that preserve the exact metric g (independent of the code)"""
+def holohedry(g, m=1):
+    """all integer matrices with entries in {-m..m} that preserve the exact metric g (independent of the code)"""
     d = len(g)
     G = np.array([[float(x) for x in r] for r in g])
-    cols = [np.array(v) for v in itertools.product((-1, 0, 1), repeat=d) if any(v)]
+    cols = [np.array(v) for v in itertools.product(range(-m, m + 1), repeat=d) if any(v)]
     match = [[v for v in cols if abs(v @ G @ v - G[k, k]) < 1e-9] for k in range(d)]
     out = []
     for tup in itertools.product(*match):
@@ -438,3 +438,32 @@ def independent_group_order(view, spins_scalar=True):
                     perm.append(tuple(p))
                 if ok: found.add((tuple(map(tuple, S.tolist())), tuple(t), tuple(perm)))
     return len(found)
+
+
+def pure_translations(view):
+    """non-zero translations (mod 1) that map every species (and spin) onto itself: non-empty <=> the cell is not primitive"""
+    c0 = min(range(len(view.basis)), key=lambda c: len(view.basis[c]))
+    out = []
+    sets = [{(tuple(mod1(x) for x in u), s) for u, s in zip(ul, sl)} for ul, sl in zip(view.basis, view.spins)]
+    u0 = view.basis[c0][0]
+    for ub in view.basis[c0][1:]:
+        t = tuple(mod1(a - b) for a, b in zip(ub, u0))
+        if all(x == 0 for x in t): continue
+        if all({(tuple(mod1(a + b) for a, b in zip(u, t)), s) for (u, s) in st} == st for st in sets): out.append(t)
+    return out
+
+
+def skew(rng, spec, nshear=2):
+    """the same crystal described in a sheared (unimodular, non-reduced) cell"""
+    d = spec.dim
+    U = [[Fr(int(i == j)) for j in range(d)] for i in range(d)]
+    for _ in range(rng.randint(1, nshear)):
+        a, b = rng.sample(range(d), 2)
+        E = [[Fr(int(i == j)) for j in range(d)] for i in range(d)]; E[a][b] = Fr(rng.choice([1, -1, 2]))
+        U = fmat_mul(U, E)
+    Ui = finv(U)
+    A2 = spec.A @ np.array([[float(x) for x in r] for r in U])
+    g2 = fmat_mul(fmat_T(U), fmat_mul(spec.g, U))
+    basis = [[tuple(mod1(x) for x in fmat_vec(Ui, list(u))) for u in ul] for ul in spec.basis]
+    Aq = fmat_mul(spec.Aq, U) if spec.Aq is not None else None
+    return Spec(spec.label + "+skew", A2, g2, basis, spec.spins, Aq), U
